@@ -51,8 +51,8 @@ def report(ctx, fp, what, case, want, got, fields=None):
 
 def check_method(ctx, m, vec, channel):
     p = lib.pamqp()
-    case = {'kind': 'method', 'method': m.name, 'vec': tojson(list(vec)),
-            'channel': channel}
+    case = corpus.case_mark({'kind': 'method', 'method': m.name,
+                             'vec': tojson(list(vec)), 'channel': channel})
     fp = 'bytes|{}|{}|{}'.format(m.name, channel, short(list(vec), 400))
     try:
         want, fields = refcodec.enc_method_frame(m, vec, channel)
@@ -186,6 +186,10 @@ def run(task, ctx):
                      sample=lambda: {'method': m.name,
                                      'vec': short(list(vec), 160),
                                      'channel': ch})
+            if ctx.evaluations % 29 == 0:
+                corpus.disturb()     # explore from a non-initial state too
+                corpus.DISTURBED = True
+                ctx.count('disturbed')
             check_method(ctx, m, vec, ch)
     elif kind == 'h':
         for props, size, ch in corpus.header_cases(task[1:], ctx.tier,
@@ -207,6 +211,7 @@ def run(task, ctx):
 
 
 def replay(case, ctx):
+    corpus.replay_prepare(case)
     kind = case['kind']
     if kind == 'method':
         check_method(ctx, spec_table.BY_NAME[case['method']],
